@@ -430,6 +430,9 @@ class _KInARow(Constraint):
         constraints = cast(List[Constraint], [self])
 
         level = replacements.get(self.level, self.level)
+        if isinstance(level, list):
+            # A factor is replaced by a pair of factors; the first one keeps the level names
+            level = level[0]
 
         # Generate the constraint for each level in the factor.
         if isinstance(level, Factor):
